@@ -67,6 +67,14 @@ def answer(prim, a):
         if prim == "chacha_mask":
             e = Cipher(ChaCha20(unhx(a[0]), unhx(a[1])), mode=None).encryptor()
             return hx(e.update(b"\x00" * 5) + e.finalize())
+        if prim == "inflate":
+            import zlib
+            z = zlib.decompressobj(wbits=0)
+            hist = a[0].split(",") if a[0] != "-" else []
+            for h in hist:
+                z.decompress(unhx(h))
+                z.flush()
+            return hx(z.decompress(unhx(a[1])) + z.flush())
         return "!ValueError"
     except Exception as e:
         return "!" + type(e).__name__
